@@ -76,4 +76,18 @@ var checks = map[string]*Check{
 		Assumptions: commonAssumptions,
 		RealStub:    coreRealStub,
 	},
+	"C20": {
+		Legs:        []Leg{{World: "C20", Weight: 1}},
+		Probes:      []string{"health_gated_start", "backend_unhealthy_at_startup", "unhealthy_exit_expected", "graceful_shutdown", "prompt_shutdown", "signal_during_list_call", "response_completed_during_grace"},
+		Rule:        "Real agent main() with documented flags vs fake proxy and a backend with a scripted health endpoint: start-up failures / late listener, 0..24 periodic results with 0..80% failures, interval 1/2/5 s, threshold 1..4, health checks on/off; SIGINT or SIGTERM at 0..31 s after the first poll, grace 0/2/10/30 s, backend latency 0..20 s. Reference: consecutive-failure counter with reset; exit instants compared in simulated time (zero network latency).",
+		Assumptions: commonAssumptions,
+		RealStub:    coreRealStub,
+	},
+	"C09": {
+		Legs:        []Leg{{World: "C09", Weight: 1}},
+		Probes:      []string{"forged_user_id_with_forwarding", "authorization_with_stripping", "websocket_handshake_seen"},
+		Rule:        "Real agent with all four combinations of -forward-user-id / -strip-credentials x shim x sessions vs fake proxy asserting a user per request and serving client requests that carry forged, repeated and odd-case X-Inverting-Proxy-User-ID and Authorization fields; 2..6 requests of several users in flight at once; plain HTTP and shim open (websocket handshake) observed at a recording backend.",
+		Assumptions: commonAssumptions,
+		RealStub:    coreRealStub,
+	},
 }
